@@ -22,4 +22,4 @@ Definition only_file (fs : fsys) (f : path) : fsys :=
 
 (** default / SAST selection said over the entry-point sequence alone *)
 Definition spec_run_order (eps : list entry_point) (excluded : list str) (sast_only : bool) : list str :=
-  match_default excluded sast_only (flat_map snd (dedup_eps [] eps)).
+  match_default excluded sast_only (flat_map snd (dedup_eps eps)).
